@@ -398,8 +398,11 @@ impl Model {
                                 }
                             }
                             None => {
+                                // nothing stored: there is no stored seq for the cas to differ from, the
+                                // put is a valid first write and is accepted (an earlier version tolerated
+                                // a 301 here and so missed a seeded defect that rejects every such put)
                                 if cas.is_some() {
-                                    defects.push((vec![301], false));
+                                    self.probe("cas_put_on_empty_slot");
                                 }
                             }
                         }
